@@ -234,13 +234,20 @@ X_VOCAB_NAMES = ["a*", "*", "[", "a,b", "a}", "a-", "-", "!", "a/,", ",", "a]", 
                  "tests/a.py", "x/testing/y/a.py", "x/b", "a/x/b", "a/b.py", "ab/b.py", "a/c", "a+c", "a/x/c", "b/y/c", "abc", "abbc", "acc"]
 
 
+X_CORE = ["a", "*", "?", "/", ".", "**", "[!a]", "[^a]", "[a-b]", "{a,b}", "{a,{b,.}}", "a{,b}", "\\*"]
+
+
 def x_patterns(thorough):
-    pats = set(X_VOCAB_PATTERNS)
-    for k in ((1, 2, 3) if thorough else (1, 2)):
-        for t in itertools.product(X_ATOMS, repeat=k):
-            if k == 3 and sum(len(x) > 1 for x in t) > 2:
-                continue
-            pats.add("".join(t))
+    """quick: every atom alone, and before and after every core atom; thorough: all pairs and the triples with a plain atom"""
+    pats = set(X_VOCAB_PATTERNS) | set(X_ATOMS)
+    for x in X_ATOMS:
+        for y in (X_ATOMS if thorough else X_CORE):
+            pats.add(x + y)
+            pats.add(y + x)
+    if thorough:
+        for t in itertools.product(X_ATOMS, repeat=3):
+            if sum(len(x) > 1 for x in t) <= 2:
+                pats.add("".join(t))
     return sorted(p for p in pats if any(ch in p for ch in "[]{}\\"))
 
 
@@ -248,9 +255,7 @@ def popcount(x):
     return bin(x).count("1")
 
 
-def glob_grid(ck, tag, pats, names, st):
-    """doublestar.Match against Cli/GlobX.v [xglob_str] on pats x names; compared where xpat_ok, name_ok and no class can meet a '/'."""
-    res = lib.driver([{"op": "globgrid", "patterns": pats, "paths": names}])[0]
+def glob_grid_jobs(tag, pats, names):
     chunk = 48      # results are packed 48 names per number (big numbers are slow to print in Coq)
     chunks = [names[i:i + chunk] for i in range(0, len(names), chunk)]
     shard = 140
@@ -263,7 +268,13 @@ def glob_grid(ck, tag, pats, names, st):
                 "Eval vm_compute in nok.\nEval vm_compute in rows.\nEval vm_compute in rows_e.\n") % (
                     clist([cstrs(c) for c in chunks]), cstrs(plain), cstrs([q for q in part if "[" in q]))
         jobs.append(("C18_glob_%s_%d" % (tag, off), REQ, body))
-    outs = lib.coq_eval_many(jobs, workers=16)
+    return jobs
+
+
+def glob_grid(ck, tag, pats, names, outs, res, st):
+    """doublestar.Match against Cli/GlobX.v [xglob_str] on pats x names; compared where xpat_ok, name_ok and no class can meet a '/'."""
+    chunk, shard = 48, 140
+    chunks = [names[i:i + chunk] for i in range(0, len(names), chunk)]
     nok, rows = None, {}
     for off, out in zip(range(0, len(pats), shard), outs):
         vals = lib.parse_coq_values(out)
@@ -312,10 +323,17 @@ def glob_differential(ck, thorough):
     st = {"glob_patterns_in_subset": 0, "glob_patterns_outside_subset": 0, "glob_patterns_full_syntax": 0, "glob_pairs": 0,
           "glob_mismatches": 0, "glob_class_vs_separator_pairs": 0, "glob_class_vs_separator_differ": 0}
     pl, nl = (5, 5) if thorough else (4, 5)
-    # the syntax of Cli/Glob.v, exhaustively over a small alphabet, and the realistic vocabulary (both syntaxes)
-    glob_grid(ck, "plain", list(words("a*?/.", pl)) + VOCAB_PATTERNS, [n for n in words("ab/.", nl)] + VOCAB_NAMES + X_VOCAB_NAMES, st)
-    # classes, negated classes, alternatives, escapes in every position
-    glob_grid(ck, "full", x_patterns(thorough), [n for n in words("ab/.", 4)] + X_VOCAB_NAMES + VOCAB_NAMES[:12], st)
+    grids = [
+        # the syntax of Cli/Glob.v, exhaustively over a small alphabet, and the realistic vocabulary (both syntaxes)
+        ("plain", list(words("a*?/.", pl)) + VOCAB_PATTERNS, [n for n in words("ab/.", nl)] + VOCAB_NAMES + X_VOCAB_NAMES),
+        # classes, negated classes, alternatives, escapes in every position
+        ("full", x_patterns(thorough), [n for n in words("ab/.", 4)] + X_VOCAB_NAMES + VOCAB_NAMES[:12])]
+    res = lib.driver([{"op": "globgrid", "patterns": pats, "paths": names} for _, pats, names in grids])
+    jobs = [glob_grid_jobs(tag, pats, names) for tag, pats, names in grids]
+    outs = lib.coq_eval_many([j for js in jobs for j in js], workers=16)
+    for (tag, pats, names), js, r in zip(grids, jobs, res):
+        glob_grid(ck, tag, pats, names, outs[:len(js)], r, st)
+        outs = outs[len(js):]
     return st
 
 
@@ -398,30 +416,53 @@ def eval_cases(cases):
     reqs = [{"op": "collect", "cwd": c.cwd, "targets": c.targets, "include": c.inc, "exclude": c.exc, "recursive": c.recursive}
             for c in cases]
     impl = lib.driver(reqs)
-    jobs, shard = [], 60
-    for off in range(0, len(cases), shard):
-        chunk = cases[off:off + shard]
-        defs, items = [], []
-        worlds = {}
-        for c in chunk:
-            if c.tree_id not in worlds:
-                worlds[c.tree_id] = "w%d" % c.tree_id
-                defs.append("Definition w%d := %s." % (c.tree_id, cnode(world_node(c.root, c.children))))
-            cwdn = [p for p in c.cwd.split("/") if p]
-            items.append("(run_case w%d %s %s %s %s %s, forallb xpat_ok (%s ++ %s))" % (
-                c.tree_id, cstrs(cwdn), clist([cspath(t) for t in c.targets]), cbool(c.recursive), cstrs(c.inc), cstrs(c.exc),
-                cstrs(c.inc), cstrs(c.exc)))
-        jobs.append(("C18_collect_%d" % off, REQ, "\n".join(defs) + "\nDefinition cases := %s.\nEval vm_compute in cases.\n" % clist(items)))
-    vals = []
-    for out in lib.coq_eval_many(jobs, workers=16):
-        vals += lib.parse_coq_values(out)[0]
-    for c, r, v in zip(cases, impl, vals):
+    jobs, spans = [], []
+    # the cases on the big tree of part B2 print indices into the tree's file list (printing long paths is what costs in Coq)
+    big = [c for c in cases if c.kind.startswith("lattice")]
+    small = [c for c in cases if not c.kind.startswith("lattice")]
+    for group, shard in ((small, 60), (big, 30)):
+        for off in range(0, len(group), shard):
+            chunk = group[off:off + shard]
+            defs, items = [], []
+            worlds = {}
+            for c in chunk:
+                if c.tree_id not in worlds:
+                    worlds[c.tree_id] = "w%d" % c.tree_id
+                    defs.append("Definition w%d := %s." % (c.tree_id, cnode(world_node(c.root, c.children))))
+                    if group is big:
+                        defs.append("Definition root%d := %s.\nDefinition cands%d := %s." % (
+                            c.tree_id, cstrs([p for p in c.root.split("/") if p]), c.tree_id, clist([cstrs(f) for f in all_files(c.children)])))
+                cwdn = [p for p in c.cwd.split("/") if p]
+                args = "%s %s %s %s %s" % (cstrs(cwdn), clist([cspath(t) for t in c.targets]), cbool(c.recursive), cstrs(c.inc), cstrs(c.exc))
+                if group is big:
+                    items.append("(run_case_idx w%d root%d cands%d %s, forallb xpat_ok (%s ++ %s))" % (
+                        c.tree_id, c.tree_id, c.tree_id, args, cstrs(c.inc), cstrs(c.exc)))
+                else:
+                    items.append("(run_case w%d %s, forallb xpat_ok (%s ++ %s))" % (c.tree_id, args, cstrs(c.inc), cstrs(c.exc)))
+            jobs.append(("C18_collect_%s%d" % ("big" if group is big else "", off), REQ,
+                         "\n".join(defs) + "\nDefinition cases := %s.\nEval vm_compute in cases.\n" % clist(items)))
+            spans.append(chunk)
+    byid = {}
+    for chunk, out in zip(spans, lib.coq_eval_many(jobs, workers=16)):
+        for c, v in zip(chunk, lib.parse_coq_values(out)[0]):
+            byid[id(c)] = v
+    for c, r in zip(cases, impl):
+        v = byid[id(c)]
         c.impl = r
         c.known = False
-        m, mabs, spec, pok = v      # Coq prints ((a, b, c), d) as (a, b, c, d)
-        c.model = None if m is None else [path_str(x) for x in m[1]]
-        c.mabs = None if mabs is None else [loc_str(x) for x in mabs[1]]
-        c.spec = sorted({loc_str(x) for x in spec})
+        if c.kind.startswith("lattice"):
+            mabs, spec, pok = v      # Coq prints ((a, b), c) as (a, b, c)
+            files = ["/".join([c.root] + list(f)) for f in all_files(c.children)]
+            if any(i >= len(files) for i in (mabs[1] if mabs is not None else []) + spec):
+                raise RuntimeError("the model or the specification selects something that is no file of the tree: %r %r" % (c.inc, c.exc))
+            c.model = None
+            c.mabs = None if mabs is None else [files[i] for i in mabs[1]]
+            c.spec = sorted({files[i] for i in spec})
+        else:
+            m, mabs, spec, pok = v      # Coq prints ((a, b, c), d) as (a, b, c, d)
+            c.model = None if m is None else [path_str(x) for x in m[1]]
+            c.mabs = None if mabs is None else [loc_str(x) for x in mabs[1]]
+            c.spec = sorted({loc_str(x) for x in spec})
         if not pok:
             raise RuntimeError("harness pattern outside the modelled glob subset (xpat_ok): %r %r" % (c.inc, c.exc))
 
@@ -532,7 +573,7 @@ def decide_cases(ck, cases, stats):
         if got:
             stats["nonempty"] += 1
         stats["kinds"][c.kind] = stats["kinds"].get(c.kind, 0) + 1
-        if c.model != r["files"]:
+        if (c.mabs != locs) if c.kind.startswith("lattice") else (c.model != r["files"]):
             ntie += 1
             if ntie <= 3:
                 ck.broken_ties.append("CollectPythonFiles output differs from Cli/FileSel.v although the selected set is right: targets %s cwd %s: impl %s model %s"
@@ -570,7 +611,7 @@ def decide_cases(ck, cases, stats):
 # part B2: the pattern language, systematically: every construct x without/with '/' x include/exclude x file depth 0..3 x target level
 # ---------------------------------------------------------------------------------------
 LATTICE_NAMES = ["core.py", "Core.py", "spec_core.py", "test_core.py", "conftest.py", "a1.py", "b2.py", "c3.py", "_priv.py", "s.pyi",
-                 "mod_test.py", "mod_spec.py", "*.py", "{x}.py", "a,b.py", "[k].py", "notes.txt"]
+                 "mod_test.py", "*.py", "{x}.py", "a,b.py", "[k].py", "notes.txt"]
 LATTICE_DIRS = [(), ("pkg",), ("pkg", "deep"), ("pkg", "deep", "er"), ("a",), ("tests",)]
 LATTICE_TARGETS = [(), ("pkg",), ("pkg", "deep"), ("pkg", "deep", "er"), ("a",)]
 # patterns without '/' : they speak about the file name, at any depth
@@ -611,7 +652,8 @@ def lattice_cases(ck, base):
     for pat in LATTICE_SLASHLESS + LATTICE_PATHS:
         for role in ("exclude", "include"):
             inc, exc = (["**/*.py", "*.pyi"], [pat]) if role == "exclude" else ([pat], [])
-            for tp in LATTICE_TARGETS:
+            # a pattern with '/' speaks about the path below the target: the project root, one level down, and a leaf
+            for tp in (LATTICE_TARGETS if "/" not in pat else [(), ("pkg",), ("a",)]):
                 k += 1
                 tdir = os.path.join(root, *tp) if tp else root
                 # the target spelled from the project root and as "." from inside, in turn
@@ -1016,23 +1058,42 @@ def main(tier):
     ck.cov.update({
         "evaluations": stats["evaluations"],
         "distinct_nontrivial": len(distinct),
-        "rule": "glob: all patterns over {a,*,?,/,.} up to length %d x all names over {a,b,/,.} up to length 5 + realistic vocabulary, compared "
-                "where pat_ok; collect: generated directory trees (depth <= 4; hidden, vendor-like, test_*/*_test files at several depths, "
-                ".pyi, upper-case extensions, non-Python files) x pattern lists (defaults, **/*.py, *.py, src/**, ?.py, literals, ...) x "
+        "rule": "glob: doublestar.Match vs Cli/GlobX.v xglob — plain syntax: all patterns over {a,*,?,/,.} up to length %d x all names over "
+                "{a,b,/,.} up to length 5 + realistic vocabulary; full syntax: every atom of {classes [a] [ab] [a-b], negated [!a] [^a] [!a-b], "
+                "escapes \\* \\a \\[ [\\]], dashes, alternatives {a,b} {a,} {,a} {a} {} nested, with * ** / class inside, malformed [ { \\}, each "
+                "%s, x all names over {a,b,/,.} up to length 4 + names with metacharacters; compared where xpat_ok and no class can "
+                "meet a '/' (those pairs are counted). collect: generated directory trees (depth <= 4; hidden, vendor-like, test_*/*_test "
+                "files at several depths, .pyi, upper-case extensions, non-Python files) x pattern lists in both syntaxes (defaults, **/*.py, "
+                "*.py, src/**, ?.py, literals, {test,spec}_*.py, [!a-z]*.py, [^a-z]*, *.py{,i}, **/{a,b}/**, {a,{b,c}}.py, \\*.py, ...) x "
                 "spellings of one directory or file (., ./, rel, rel/, rel/., abs, abs/, //abs, ../x/rel, x/../rel, doubled slashes) from several "
-                "working directories, and target lists with overlaps, repeats, files and missing paths; decided against spec_list "
-                "(proved = sel_spec), implementation list compared with the model list; e2e: pyscn analyze --json --select complexity "
-                "with default and configured patterns. distinct = distinct (tree, cwd, targets, patterns, recursive)" % (5 if thorough else 4),
+                "working directories, and target lists with overlaps, repeats, files and missing paths; lattice: one tree with the same %d file "
+                "names (among them *.py, {x}.py, a,b.py, [k].py) in every directory at depth 0..3 x %d patterns without '/' and %d with '/' "
+                "(star, ?, class, range, both negations, alternatives nested / with wildcards / with classes / with an empty alternative, "
+                "escapes, **) x as the only exclude and as the only include x every target level (root, pkg, pkg/deep, pkg/deep/er, a; spelled "
+                "from the root and as '.' from inside): every (pattern, path) pair decided against spec_list, and for patterns without '/' "
+                "the same file must be selected through every target above it; all decided against spec_list (proved = sel_spec), "
+                "implementation list compared with the model list; e2e: pyscn analyze --json --select complexity with default patterns and "
+                "with patterns of both syntaxes from -c / .pyscn.toml / pyproject.toml (pyscn analyze has no pattern flags), the full-syntax "
+                "lists judged from the project root, from pkg and for the target pkg/deep. "
+                "distinct = distinct (tree, cwd, targets, patterns, recursive)" % (
+                    5 if thorough else 4, "alone, before and after every other atom, and in triples" if thorough else "alone and before and after each of 13 core atoms",
+                    len(LATTICE_NAMES), len(LATTICE_SLASHLESS), len(LATTICE_PATHS)),
         "input_distribution": dict(stats["kinds"], collect_cases=len(cases), nonempty_selections=stats["nonempty"],
                                    error_cases=stats["error_cases"], spelling_groups=stats.get("spelling_groups", 0),
-                                   e2e_runs=stats["e2e_runs"], e2e_empty=stats["e2e_empty"], **gstats),
+                                   e2e_runs=stats["e2e_runs"], e2e_empty=stats["e2e_empty"],
+                                   e2e_full_syntax_runs=stats.get("e2e_full_syntax_runs", 0),
+                                   lattice_patterns=len(LATTICE_SLASHLESS) + len(LATTICE_PATHS), lattice_target_pairs=stats.get("lattice_target_pairs", 0),
+                                   known_class_separator_cases=stats.get("known_class_separator_cases", 0),
+                                   unit_class_separator_skipped=stats.get("unit_class_separator_skipped", 0),
+                                   collect_cases_full_syntax=sum(1 for c in cases if any(ch in q for q in c.inc + c.exc for ch in "[]{}\\")), **gstats),
         "disagreements_checked": stats["disagreements"],
     })
     ck.trusted += ["Coq 8.16.1 kernel, vm_compute for model and spec evaluation",
                    "translator /verif/translator gen_files.go (skip list, Python extensions, default include/exclude/recursive)",
-                   "hand-written models Cli/Glob.v (doublestar v4.10.0 Match on the pat_ok subset) and Cli/FileSel.v "
+                   "hand-written models Cli/GlobX.v (doublestar v4.10.0 Match: full pattern syntax, on the xpat_ok domain and where no class meets "
+                   "a separator; = Cli/Glob.v on patterns without [ ] { } \\, proved) and Cli/FileSel.v "
                    "(service/file_reader.go; filepath.Clean/Join/Abs modelled, filepath.Rel(dir, Join(dir, r)) = r and filepath.Walk "
                    "order assumed), bound to the code by this differential test",
                    "file system without symlinks, unreadable entries or non-ASCII names; every `x/..` in a spelling goes through an existing directory"]
-    ck.finish(assumptions=["targets exist or the run fails as a whole", "patterns within the modelled doublestar subset (pat_ok)",
+    ck.finish(assumptions=["targets exist or the run fails as a whole", "patterns within the compared doublestar domain (xpat_ok: well-formed, none of match.go's end-of-name quirks)",
                            "no symbolic links; names are ASCII without '/'", "a file argument is spelled with the file name last"])
